@@ -161,8 +161,12 @@ func (la *linAnalysis) recvFieldHandle(v ssa.Value) *fakeHandle {
 	if fa == nil || !isReceiverValue(la.curFn, fa.X) {
 		return nil
 	}
-	f := fieldOf(fa)
-	return la.curFields[f]
+	// keyed by the struct's own field object (fieldOf may hand out a stand-in carrying the field's reference name)
+	st, ok := fa.X.Type().Underlying().(*types.Pointer).Elem().Underlying().(*types.Struct)
+	if !ok {
+		return nil
+	}
+	return la.curFields[st.Field(fa.Field)]
 }
 
 // isReceiver: v is the receiver (possibly converted to an interface).
